@@ -607,21 +607,24 @@ func hasMethodCall(s *Slice, name string) bool {
 // slots of the transactions before it (loop over index < TxConfig.TxIndex). Shared by C13-R4 and C05-R7.
 func cumulativeGasShape(e *Engine) (loopOK, ownOK bool) {
 	amwc := e.Fn(pkgEvmKeeper, "Keeper.ApplyMessageWithConfig")
-	for _, l := range loopsOf(amwc) {
-		for _, i := range ifs(amwc) {
-			b, isB := i.Cond.(*ssa.BinOp)
-			if !isB || b.Op != token.LSS || !l.Body[i.Block()] {
-				continue
-			}
-			if hasFieldLoad(sliceFrom(b.Y), "TxConfig", "TxIndex") {
-				loopOK = true
+	reg := e.privateRegion(amwc) // the summation may live in a single-site private helper
+	for _, f := range reg.Fns {
+		for _, l := range loopsOf(f) {
+			for _, i := range ifs(f) {
+				b, isB := i.Cond.(*ssa.BinOp)
+				if !isB || b.Op != token.LSS || !l.Body[i.Block()] {
+					continue
+				}
+				if hasFieldLoad(reg.Slice(b.Y), "TxConfig", "TxIndex") {
+					loopOK = true
+				}
 			}
 		}
 	}
 	allInstrs(amwc, false, func(_ *ssa.Function, _ *ssa.BasicBlock, i ssa.Instruction) {
 		if st, ok := i.(*ssa.Store); ok {
 			if fa, ok := st.Addr.(*ssa.FieldAddr); ok && fieldName(fa) == "CumulativeGasUsed" {
-				sl := sliceFrom(st.Val)
+				sl := backSlice(st.Val, SliceOpts{ThroughCallArgs: alwaysThrough, IntoCallees: func(f *ssa.Function) bool { return reg.in[f] }, Depth: 3})
 				ownOK = hasFieldLoad(sl, "ExecutionResult", "UsedGas") && sl.HasCall(CallSpec{pkgEvmKeeper, "Keeper", "GetGasUsedForTdxIndexTransient"})
 			}
 		}
